@@ -160,4 +160,43 @@ var properties = map[string]*Property{
 		},
 		MustBePositive: []string{"pipeline-sim-c04/probe:fallback-happened", "pipeline-sim-c04/probe:authenticator-remote-fault", "pipeline-sim-c04/positive:decision", "pipeline-sim-c04/positive:proxy", "pipeline-sim-c04/positive:envoy"},
 	},
+	"C16": {
+		ID: "C16",
+		Harnesses: []Harness{{
+			Name: "signer-sched", Property: "C16", Pkg: "./internal/rules/mechanisms/finalizers", Test: "TestVerifC16",
+			Dirs:       []string{"internal/rules/mechanisms/finalizers", "internal/handler/management", "internal/keyholder"},
+			Files:      []string{"zz_verif_c16_test.go"},
+			Race:       true,
+			Instrument: []string{"internal/rules/mechanisms/finalizers/jwt_signer.go:locks+yields", "internal/rules/mechanisms/finalizers/jwt_finalizer.go:yields"},
+			Params:     map[string]string{"prop": "C16"},
+			Quick:      Tier{Runs: 1600, BudgetS: 120},
+			Thorough:   Tier{Runs: 100000, BudgetS: 1500},
+		}},
+		Rule: "one case = one seeded schedule of two token-issuing tasks (real jwt finalizer, with or without the real in-memory cache), one JWKS reader (real management handler) and one key-store writer performing 1-3 rewrites (1-3 entries of RSA/ECDSA fixture keys of every supported size, with/without certificate chain and X-Key-ID, optionally torn or invalid intermediate contents) each followed by watcher notifications dispatched as tasks like `go listener.OnChanged`; compiled with lock shims and yield points in jwt_signer.go / jwt_finalizer.go under the race detector. Non-trivial/distinct = distinct (task, yield-site) schedule signatures.",
+		Real: []string{"jwtFinalizer, jwtSigner (locks shimmed, yields inserted)", "keystore (PEM parsing, chain building, key ids)", "keyholder.registry", "management JWKS handler", "memory.Cache or noop cache", "pkix certificate validation"},
+		Stub: []string{"fsnotify watcher -> simWatcher dispatching OnChanged as scheduler tasks", "disk: real files in a per-run scratch directory written step-wise by the simulator"},
+		Assumptions: []string{
+			"key ids are observed, never predicted; a key-store version is identified by the RFC 7638 thumbprints of its key blocks parsed with the standard library",
+			"the published state is observed by the scheduler between steps (no task running); a token / JWKS read must be explained by a state visible during its invoke..return interval",
+			"a key id is never reused for different key material by the generator",
+			"iat is compared with the wall clock around the call (+-2 s); it never enters the trace",
+		},
+		MustBePositive: []string{"signer-sched/probe:sign-overlapped-reload"},
+	},
+	"C19": {
+		ID: "C19",
+		Harnesses: []Harness{{
+			Name: "signer-reload", Property: "C19", Pkg: "./internal/rules/mechanisms/finalizers", Test: "TestVerifC16",
+			Dirs:       []string{"internal/rules/mechanisms/finalizers", "internal/handler/management", "internal/keyholder"},
+			Files:      []string{"zz_verif_c16_test.go"},
+			Race:       true,
+			Instrument: []string{"internal/rules/mechanisms/finalizers/jwt_signer.go:locks+yields", "internal/rules/mechanisms/finalizers/jwt_finalizer.go:yields"},
+			Params:     map[string]string{"prop": "C19"},
+			Quick:      Tier{Runs: 800, BudgetS: 100},
+			Thorough:   Tier{Runs: 40000, BudgetS: 900},
+		}},
+		Rule: "TODO",
+		Real: []string{"TODO"},
+		Stub: []string{"TODO"},
+	},
 }
